@@ -87,6 +87,8 @@ def build(a):
     cat = CATALOGS[a['catalog']]
     if off is not None and lim is None:
         return None
+    if al != 'none' and 't3' in where:
+        return None      # the alias renaming would also hit the text of the sub-query
     names = list(COLNAMES)
     if cat == 'default_int1':
         lt = lt.replace('int1.t1', 't1')
@@ -324,6 +326,7 @@ def label(a, for_signature=False):
 class CHECK(Check):
     pid = 'C08'
     level = 'exploration'
+    case_timeout = 900      # one case = one statement / plan on every database of the tier
     assumptions = ['sqlite 3.40 is the reference engine; the meaning of each step is the docstring in planner/steps.py as implemented by vf/planx.py',
                    'a Parameter(Result) stands for the first column of that result: a list after IN / NOT IN, otherwise a scalar (NULL if empty)',
                    'dataframe columns carry the table alias (or table name) of the fetch they come from; the plan query addresses them as alias.column']
@@ -383,9 +386,23 @@ class CHECK(Check):
             return ('internal', e)
         return ('plan', plan)
 
-    def evaluate(self, q, res=None):
+    @staticmethod
+    def strip_fetch_limits(plan):
+        """the same plan with LIMIT / OFFSET removed from every fetch query (used to attribute a failure to a pushed-down LIMIT)"""
+        from mindsdb_sql.planner import steps as S
+        n = 0
+        for st in plan.steps:
+            if isinstance(st, S.FetchDataframeStep) and st.query is not None and (getattr(st.query, 'limit', None) is not None or getattr(st.query, 'offset', None) is not None):
+                st.query.limit = None
+                st.query.offset = None
+                n += 1
+        return n
+
+    def evaluate(self, q, res=None, strip_limits=False):
         self.ensure()
         kind, plan = self.plan(q)
+        if strip_limits and kind == 'plan' and not self.strip_fetch_limits(plan):
+            return [('rows-differ', 'no fetch carries a LIMIT')]
         if kind != 'plan':
             if res:
                 res.count('plan_' + kind)
@@ -447,6 +464,13 @@ class CHECK(Check):
         fails = self.evaluate(q, res)
         for k, msg in fails:
             cur = dict(a)
+            if k == 'rows-differ' and q['limit'] is not None and not any(k2 == 'rows-differ' for k2, _ in self.evaluate(q, strip_limits=True)):
+                # the plan is right once LIMIT / OFFSET are taken out of its fetch queries: one root cause, whatever else the query contains
+                jt = JOINS[a['join']] if SHAPES[a['shape']] == 'join' else SHAPES[a['shape']]
+                jclass = 'inner' if jt in ('JOIN', 'INNER JOIN', 'implicit', 'CROSS JOIN') else jt
+                res.violation(f'rows-differ|limit-pushed-into-fetch|{jclass}|{"api" if CATALOGS[a["catalog"]] == "api_int2" else "sql"}',
+                              msg + f'\n    attribution: the plan is correct when LIMIT/OFFSET are removed from its fetch queries (features: {label(a)})')
+                continue
             if not k.startswith('oracle'):
                 for name in FEATURES:
                     if cur[name] == 0:
